@@ -357,7 +357,8 @@ def unit_runs(u):
 # ---------------------------------------------------------------------------------------------------------------
 # (B) trigger sufficiency
 # ---------------------------------------------------------------------------------------------------------------
-RESTRICTED = ["affine_geq", "affine_leq", "max_leq", "min_geq", "no_sub_cycle", "affine_eq", "alldifferent", "lexicographic_leq"]
+# every type: a type whose declared masks watch everything costs one call per box; a narrowed mask is then seen at once
+RESTRICTED = list(K.TYPES)
 
 
 def events_of(old, new):
@@ -420,11 +421,11 @@ def run(tier, seed):
     t0 = time.time()
     units = [(tier, typ, insts) for (_p, _t, typ, insts) in propmc.units_for(PROP, tier, RESTRICTED)]
     acc = pmap(trig_unit, units, seed)
-    eng, nspecs = SC.run_units(unit, tier, seed, ("F1", "F2", "F3", "F4", "F5", "F6"), chunk=20, filt=lambda s: eligible(s, tier))
+    eng, nspecs = SC.run_units(unit, tier, seed, U.ALL, chunk=20, filt=lambda s: eligible(s, tier))
     acc.merge(eng)
-    runs, _ = SC.run_units(unit_runs, tier, seed, ("F1", "F2", "F3", "F4", "F5", "F6"), chunk=40,
+    runs, _ = SC.run_units(unit_runs, tier, seed, U.ALL, chunk=40,
                            filt=lambda s: len(s["cons"]) >= 1 and U.n_assignments(s) <= 300 and eligible(s, "thorough") and
-                           (tier == "thorough" or zlib.crc32(U.key(s).encode()) % 3 == 0 or s["tag"][:2] in ("F3", "F4", "F5")))
+                           (tier == "thorough" or zlib.crc32(U.key(s).encode()) % 3 == 0 or s["tag"][:2] in ("F3", "F4", "F5", "F7")))
     acc.merge(runs)
     cov = {
         "states": acc.c["sched_states"] + acc.c["states"] + acc.c["fixpoint_boxes"],
